@@ -1,6 +1,6 @@
 #!/bin/bash
 # run every registered quick check sequentially; summary at the end
-cd /verif
+cd /verif; mkdir -p build/tmp
 for p in $(python3 -c "import json; print(' '.join(c['property_id'] for c in json.load(open('MANIFEST.json'))['checks']))"); do
   /usr/bin/time -f "$p %es" ./check $p --tier ${1:-quick} > build/tmp/check_$p.log 2>&1; echo "$p rc=$? $(tail -1 build/tmp/check_$p.log)"; grep -E "VIOLATION|KNOWN-FINDING" build/tmp/check_$p.log
 done
